@@ -320,6 +320,11 @@ func c16Run(rc *RunCtx) *Violation {
 			for qi, q := range late {
 				to := (qi + round) % 2
 				w.Put(1-to, to, []byte(q), false, -1, -1, "late-query")
+				lateOffer, _ := refotr.ParseQuery([]byte(q))
+				rq := w.Deliver(w.Take(1-to, to, 0))
+				if highest(lateOffer, polVersions(w.P[to].Cfg.Pol)) == 0 && hasAKEOut(rq) {
+					return rc.Viol("offer.acted", fmt.Sprintf("%s (policy %d, in a version %d session) answered the offer %q, which contains no version it allows, with a key exchange message", w.P[to].Name, w.P[to].Cfg.Pol, sessionV, q), map[string]string{"form": "late:" + q})
+				}
 				w.Drain(400)
 				if viol != nil {
 					break
@@ -341,6 +346,26 @@ func c16Run(rc *RunCtx) *Violation {
 			}
 		}
 		rc.Probe("late_offers_checked")
+		// ---- and after the session has been ended: an offer without an allowed version is still not acted on
+		if viol == nil {
+			for i := 0; i < 2; i++ {
+				r := w.P[i].End()
+				w.Enqueue(w.P[i], r)
+				w.Drain(400)
+			}
+			w.Tick(tickDur[3])
+			for qi, q := range []string{"?OTRv4?", "?OTR?", "?OTRv?", "?OTRv2?", "?OTRv3?"} {
+				to := qi % 2
+				lateOffer, _ := refotr.ParseQuery([]byte(q))
+				if highest(lateOffer, polVersions(w.P[to].Cfg.Pol)) != 0 {
+					continue
+				}
+				rq := w.P[to].Receive([]byte(q))
+				if hasAKEOut(rq) {
+					return rc.Viol("offer.acted", fmt.Sprintf("%s (policy %d, after an ended version %d session) answered the offer %q, which contains no version it allows, with a key exchange message", w.P[to].Name, w.P[to].Cfg.Pol, sessionV, q), map[string]string{"form": "after-end:" + q})
+				}
+			}
+		}
 	}
 	if viol != nil {
 		return viol
